@@ -42,6 +42,7 @@ TRUSTED = [
     "a sample of the same histories is re-evaluated by the kernel (vm_compute)",
 ]
 NAME = "x"
+UUID = "4f1e2a3b-5c6d-4e7f-8a9b-0c1d2e3f4a5b"      # a real v4 UUID: the server naming spikeglx.Reader supports
 NWINDOW = 1200
 FIX = common.REPO / "src" / "tests" / "fixtures"
 
@@ -55,8 +56,21 @@ CONFIGS = {
     "np21w1c": (1, "np2split/NP21_meta/_spikeglx_ephysData_g0_t0.imec0.ap.meta", 0, 1, True),
     "np21w2c": (1, "np2split/NP21_meta/_spikeglx_ephysData_g0_t0.imec0.ap.meta", 0, 2, True),
     "np1w1": (2, "np2split/NP1_meta/_spikeglx_ephysData_g0_t0.imec0.ap.meta", 0, 1, False),
+    # file names with a dataset UUID between the band label and the extension (and "ap" elsewhere in the name)
+    "np21w2u": (1, "np2split/NP21_meta/_spikeglx_ephysData_g0_t0.imec0.ap.meta", 0, 2, False),
+    "np21w1cu": (1, "np2split/NP21_meta/_spikeglx_ephysData_g0_t0.imec0.ap.meta", 0, 1, True),
+    "np24s1w1u": (0, "sampleNP2.4_1shank_g0_t0.imec.ap.meta", 1, 1, False),
+    # probes that are not NP2: 3A, 3B2 and NPultra metadata, with and without their hardware lf file
+    "np3Aw1": (2, "sample3A_g0_t0.imec.ap.meta", 0, 1, False),
+    "np1w1h": (2, "np2split/NP1_meta/_spikeglx_ephysData_g0_t0.imec0.ap.meta", 0, 1, False),
+    "npUw1": (2, "sampleNPultra_g0_t0.imec0.ap.meta", 0, 1, False),
+    "npUw1h": (2, "sampleNPultra_g0_t0.imec0.ap.meta", 0, 1, False),
 }
 NS_OF_W = {1: 1200, 2: 1800, 3: 2400}
+# (stem, what follows the band label) of the recording's file names; default ("x", "")
+NAMES = {"np21w2u": ("snapshot_g0_t0.imec0", "." + UUID), "np21w1cu": ("x", "." + UUID),
+         "np24s1w1u": ("capture.imec0", "." + UUID)}
+HWLF = {"np1w1h", "npUw1h"}          # a hardware lf recording (x.lf.bin, x.lf.meta) lies next to the ap file
 FK = {".bin": 0, ".cbin": 1, ".cbin_tmp": 2, ".ch": 3, ".meta": 4, ".ch_tmp": 5}
 FKN = ["bin", "cbin", "cbin_tmp", "ch", "meta", "ch_tmp"]
 NFK = len(FKN)
@@ -70,7 +84,12 @@ class Injected(Exception):
 # layout <-> model paths
 # ----------------------------------------------------------------------------
 # init_params(extra=...): suffix of the shank folder names; fixed per task (set by the worker)
-LAYOUT = {"extra": ""}
+LAYOUT = {"extra": "", "stem": NAME, "uu": ""}
+
+
+def set_layout(cfg, extra=""):
+    LAYOUT["extra"] = extra
+    LAYOUT["stem"], LAYOUT["uu"] = NAMES.get(cfg, (NAME, ""))
 
 
 def sub_list(mask):
@@ -82,11 +101,13 @@ def owner_path(root, oc, f):
     """model owner code, fkind code -> real path"""
     ext = "." + FKN[f]
     if oc == 1:
-        return root / "probe00" / (NAME + ".ap" + ext)
+        return root / "probe00" / (LAYOUT["stem"] + ".ap" + LAYOUT["uu"] + ext)
     if oc == 2:
-        return root / "probe00" / (NAME + ".lf" + ext)
+        return root / "probe00" / (LAYOUT["stem"] + ".ap" + LAYOUT["uu"] + ext).replace("ap", "lf")
     k, e = divmod(oc - 10, 2)
-    return root / ("probe00" + chr(97 + k) + LAYOUT["extra"]) / (NAME + (".ap" if e == 0 else ".lf") + ext)
+    fn = LAYOUT["stem"] + ".ap" + LAYOUT["uu"] + ext
+    # the code names the lf file name.replace("ap", "lf"): every "ap" of the name, not only the band label
+    return root / ("probe00" + chr(97 + k) + LAYOUT["extra"]) / (fn if e == 0 else fn.replace("ap", "lf"))
 
 
 def universe(root, n):
@@ -122,8 +143,8 @@ def pcode(root, p):
     if len(parts) != 2:
         return -1
     fn = parts[1]
-    for band, e in ((".ap", 0), (".lf", 1)):
-        pre = NAME + band
+    for pre, e in ((LAYOUT["stem"] + ".ap" + LAYOUT["uu"], 0),
+                   ((LAYOUT["stem"] + ".ap" + LAYOUT["uu"]).replace("ap", "lf"), 1)):
         if fn.startswith(pre + ".") and fn[len(pre):] in FK:
             f = FK[fn[len(pre):]]
             if suf == "":
@@ -165,7 +186,8 @@ def make_recording(root, cfg):
         if l.startswith("fileSizeBytes="):
             l = "fileSizeBytes=%d" % (ns * 385 * 2)
         lines.append(l)
-    (d / (NAME + ".ap.meta")).write_text("\n".join(lines) + "\n")
+    set_layout(cfg)
+    owner_path(root, 1, 4).write_text("\n".join(lines) + "\n")
     # low-entropy but channel- and time-dependent samples (cheap for zlib), a few large values
     t = np.arange(ns)[:, None]
     c = np.arange(385)[None, :]
@@ -173,7 +195,10 @@ def make_recording(root, cfg):
     dat[::97, ::31] = 3000
     dat[5::211, 3::17] = -2900
     dat[:, 384] = ((np.arange(ns) // 7) % 2) * 64
-    dat.tofile(d / (NAME + ".ap.bin"))
+    dat.tofile(owner_path(root, 1, 0))
+    if cfg in HWLF:         # the probe's own lf recording: anything, it must simply not change
+        (dat[::12, :] // 2).astype(np.int16).tofile(owner_path(root, 2, 0))
+        owner_path(root, 2, 4).write_text("\n".join(lines).replace("imSampRate=", "imSampRate=2500\n~was=") + "\n")
     return dat
 
 
@@ -234,7 +259,10 @@ def build_reference(base, cfg):
     raw = cdir / "raw"
     dat = make_recording(raw, cfg)
     exp = {}
-    ob = raw / "probe00" / (NAME + ".ap.bin")
+    ob = owner_path(raw, 1, 0)
+    if cfg in HWLF:
+        exp[20] = sha(owner_path(raw, 2, 0))
+        exp[24] = sha(owner_path(raw, 2, 4))
     exp[10] = sha(ob)
     exp[14] = sha(ob.with_suffix(".meta"))
     # original compressed in place (what compress_NP21 / a user does)
@@ -243,9 +271,9 @@ def build_reference(base, cfg):
     sr = spikeglx.Reader(oc / "probe00" / ob.name)
     sr.compress_file()
     sr.close()
-    exp[11] = exp[12] = sha(oc / "probe00" / (NAME + ".ap.cbin"))
-    exp[13] = exp[15] = sha(oc / "probe00" / (NAME + ".ap.ch"))
-    r = mtscomp.decompress(oc / "probe00" / (NAME + ".ap.cbin"), oc / "probe00" / (NAME + ".ap.ch"))
+    exp[11] = exp[12] = sha(owner_path(oc, 1, 1))
+    exp[13] = exp[15] = sha(owner_path(oc, 1, 3))
+    r = mtscomp.decompress(owner_path(oc, 1, 1), owner_path(oc, 1, 3))
     assert np.array_equal(r[:], dat), "compressed original does not decompress to the original"
     r.close()
     (oc / "probe00" / ob.name).unlink()
@@ -281,11 +309,12 @@ def build_reference(base, cfg):
                 assert hashlib.sha1(want).hexdigest() == exp[(10 + 2 * k) * 10], \
                     "shank %d ap.bin is not the column gather of the original" % k
                 d1 = cdir / "ref1" / ("probe00" + chr(97 + k))
-                r = mtscomp.decompress(d1 / (NAME + ".ap.cbin"), d1 / (NAME + ".ap.ch"))
+                r = mtscomp.decompress(owner_path(cdir / "ref1", 10 + 2 * k, 1), owner_path(cdir / "ref1", 10 + 2 * k, 3))
                 assert r[:].tobytes() == want, "shank %d ap.cbin does not decompress to the gather" % k
                 r.close()
             try:
-                reference_recon(cdir, ob, n, exp)
+                if not LAYOUT["uu"]:        # NP2Reconstructor globs "*ap.meta": it does not support UUID names
+                    reference_recon(cdir, ob, n, exp)
             except AssertionError as e:
                 exp["recon_error"] = str(e)
             except Exception as e:
@@ -805,13 +834,50 @@ def probe_nsamples(base, cfg, exp):
     return out
 
 
+def name_cases(ctx):
+    """file names for the lf_name correspondence: Python str.replace("ap", "lf") against the model"""
+    rng = ctx.rng
+    names = ["x.ap.bin", "x.ap.%s.cbin" % UUID, "snapshot_g0_t0.imec0.ap.%s.bin" % UUID, "rec.imec0.bin", "", "a", "p",
+             "ap", "pa", "aap", "apap", "aapp", "apa", "a.p", "AP.bin", "capture.imec0.ap.meta", "_spikeglx_ephysData_g0_t0.imec0.ap.bin"]
+    for _ in range(200 if ctx.thorough() else 40):
+        names.append("".join(rng.choice("apAP.lf_x0") for _i in range(rng.randrange(0, 14))))
+    return names
+
+
+def probe_noap_name(base, cfg):
+    """A recording whose file name contains no "ap" (spikeglx.Reader accepts any name): does a plain first
+    run produce the lf file?  Implementation only (F-C04-i)."""
+    from neuropixel import NP2Converter
+    d = base / cfg / "noap"
+    shutil.copytree(base / cfg / "raw", d)
+    ap, meta = owner_path(d, 1, 0), owner_path(d, 1, 4)
+    ap2 = ap.with_name("rec.imec0.bin")
+    ap.rename(ap2)
+    meta.rename(ap2.with_suffix(".meta"))
+    conv = None
+    out = {}
+    try:
+        conv = NP2Converter(ap2, compress=False)
+        conv.init_params(nwindow=NWINDOW)
+        try:
+            out["status"] = int(conv.process())
+        except Exception as e:
+            out["status"] = repr(e)
+        out["files"] = sorted(p.name for p in ap2.parent.iterdir())
+    finally:
+        if conv is not None:
+            release(conv)
+        shutil.rmtree(d, ignore_errors=True)
+    return out
+
+
 def enc_obs(o):
     return [o["outcome"], o["checked"], o["already"], o["processed"], len(o["trace"])] + o["trace"] + o["state"]
 
 
 def enc_hist(cfg, runs):
     kind, fixture, n, w, compressed = CONFIGS[cfg]
-    out = [kind, n, w, int(compressed)]
+    out = [kind, n, w, 2 if cfg in HWLF else int(compressed)]
     for r in runs:
         out += [r["t"], r["post"], r["del"], r["comp"], r["ow"], r["crash"], r["corrupt"], r.get("sub", 0)]
     return out
@@ -937,6 +1003,12 @@ def oracle(ctx, cfg, runs, obs, pre0, seen):
                 and r.get("sub", 0) == prev_sub:
             fail("repeated run after a complete run did not report 'nothing done' (%d)" % oc,
                  dict(tags, clause="rerun_status"))
+        nothing_there = (kind == 1 and p[20] == 0 and p[21] == 0) or \
+            (kind == 0 and not any(p[1000 + k] == 2 for k in (sub_list(r.get("sub", 0)) or range(n))))
+        if not r["ow"] and not fault and input_present and r["t"] < 2 and kind != 2 and nothing_there \
+                and not expect_assert and oc != 101:
+            fail("first run on a directory without any output did not convert (%d %s)" % (oc, o.get("exc", "")),
+                 dict(tags, clause="first_run"))
         if r["ow"] and not fault and input_present and r["t"] < 2 and kind != 2 and expect_assert:
             if oc != 202:
                 fail("forced re-run of a partial split did not end in the verification error (%d)" % oc,
@@ -1080,7 +1152,7 @@ def worker(task):
     kind, fixture, n, w, compressed = CONFIGS[cfg]
     exp = {int(k): v for k, v in json.loads((base / cfg / "exp.json").read_text()).items() if k != "recon_error"}
     rng = random.Random(task["seed"])
-    LAYOUT["extra"] = task.get("extra", "")
+    set_layout(cfg, task.get("extra", ""))
     work = Path(common.tmpdir(prefix="C04_w_"))
     if "object" in task:
         try:
@@ -1192,7 +1264,8 @@ def reference_job(arg):
         (base / cfg / "exp.json").write_text(json.dumps(exp))
         m = measure_sync_copy(base, cfg, exp) if cfg == "np24s4w2" else None
         ns = probe_nsamples(base, cfg, exp) if cfg == "np24s1w3" else None
-        return ("ok", m, exp.get("recon_error"), ns)
+        na = probe_noap_name(base, cfg) if cfg == "np21w2" else None
+        return ("ok", m, exp.get("recon_error"), ns, na)
     except AssertionError as e:
         return ("assert", str(e))
     except BaseException as e:       # noqa
@@ -1345,15 +1418,17 @@ def make_tasks(ctx, base):
     if th:
         add("np24s1w3", [], T, "all", fo)
     else:
-        add("np24s1w3", [], key, "all", fo)
-        add("np24s1w3", [], [t for t in T if t not in key], 3, fo)
+        add("np24s1w3", [], key[1:2], "all", fo)
+        add("np24s1w3", [], key[:1] + key[2:], 8, fo)
+        add("np24s1w3", [], rng.sample([t for t in T if t not in key], 6), 2, fo)
     add("np24s1w1", [], T if th else rng.sample(T, 2), "all", fo)
     # ... and from directories left by earlier runs (stale .cbin, plain .bin, half-compressed, half-prepared)
     for prefix in ([full], [nocomp], [dict(full, crash=13)], [dict(full, crash=1)]):
         add("np24s1w3", prefix, TO if th else rng.sample(TO, 1), "all" if th else 4, fo)
-        add("np24s1w3", prefix, TN if th else rng.sample(TN, 1), 2, fo)
+        if th or prefix[-1]["crash"] >= 0:
+            add("np24s1w3", prefix, TN if th else rng.sample(TN, 1), 2, fo)
     # four shanks: sampled crash points (all in thorough); crashes inside _prepare_files always
-    add("np24s4w2", [], T if th else rng.sample(T, 6), "all" if th else 2, fo)
+    add("np24s4w2", [], T if th else rng.sample(T, 4), "all" if th else 2, fo)
     add("np24s4w2", [], [mkrun(t=-1, post=1, dele=1, comp=1, ow=0)], "all" if th else 7, fo)
     for c in ((2, 4, 7) if th else (4,)):
         add("np24s4w2", [dict(full, crash=c)], [mkrun(t=-1, ow=0), mkrun(t=-1, ow=1, dele=1)], 2 if th else 1, fo)
@@ -1365,14 +1440,14 @@ def make_tasks(ctx, base):
                       for c in (0, 1) for o in (0, 1)][:4 if th else (3 if cfg == "np24s1w3" else 1)], "none", 1)
     # NP2.1: every crash point, fresh and after earlier runs, plain and pre-compressed original
     # (a follow-up after every interrupted run: interrupted-then-rerun histories, plain and forced)
-    add("np21w2", [], T if th else [t for t in T if t["post"] == t["del"] == t["ow"] or
-                                    (t["post"], t["del"], t["comp"], t["ow"]) == (1, 1, 1, 0)], "all", 1 if th else 0.5)
+    add("np21w2", [], T if th else [t for t in T if (t["post"], t["del"], t["comp"], t["ow"]) in
+                                    ((1, 1, 1, 0), (0, 0, 1, 1), (0, 0, 0, 0))], "all", 1 if th else 0.5)
     for prefix in ([mkrun(t=-1, comp=1)], [mkrun(t=-1, comp=0)], [mkrun(t=-1, comp=1, crash=6)],
                    [mkrun(t=-1, comp=1, crash=8)], [mkrun(t=-1, comp=1, crash=9)],
                    [mkrun(t=-1, comp=1, crash=2), mkrun(t=-1, comp=1, ow=1, crash=7)],
                    [mkrun(t=-1, comp=1, crash=11)], [mkrun(t=-1, comp=0, ow=1, crash=1)]):
         add("np21w2", prefix, [mkrun(t=-1, comp=1, ow=1), mkrun(t=-1, comp=0, ow=1), mkrun(t=-1, comp=1, ow=0)]
-            if th else [mkrun(t=-1, comp=1, ow=1), mkrun(t=-1, comp=rng.randrange(2), ow=rng.randrange(2))],
+            if th else [mkrun(t=-1, comp=rng.randrange(2), ow=1 if prefix[-1]["crash"] >= 0 else rng.randrange(2))],
             "all" if th else 2, fo)
     # original given as .cbin (compress_NP21 must leave it alone), fresh and after interrupted runs
     add("np21w1c", [], [t for t in T if t["post"] == 1 and t["del"] == 0 and (th or t["comp"])], "all", 1 if th else 0.5)
@@ -1397,6 +1472,18 @@ def make_tasks(ctx, base):
         2 if th else 1, 1, extra="_x")
     add("np24s1w3", [], [mkrun(t=-1, post=1, dele=1, comp=1, sub=0b1), mkrun(t=-1, post=1, dele=0, comp=0)],
         "all" if th else 2, fo, extra="_run2")
+    # file names with a dataset UUID (and "ap" elsewhere in the name): the lf output must not alias the original
+    add("np21w2u", [], [mkrun(t=-1, post=0, dele=0, comp=1), mkrun(t=-1, post=0, dele=0, comp=0, ow=1)]
+        + ([mkrun(t=-1, post=1, dele=1, comp=1, ow=1), mkrun(t=-1, post=0, dele=0, comp=0)] if th else []),
+        "all" if th else 3, 1)
+    add("np21w1cu", [], [mkrun(t=-1, post=0, dele=0, comp=1, ow=1), mkrun(t=-1, post=0, dele=0, comp=1)]
+        + ([mkrun(t=-1, post=0, dele=0, comp=0, ow=1)] if th else []), "all" if th else 3, 1)
+    add("np24s1w1u", [], [mkrun(t=-1, post=1, dele=1, comp=1), mkrun(t=-1, post=1, dele=0, comp=0, ow=1)],
+        "all" if th else 3, 1)
+    # probes that are not NP2 (3A, 3B2, NPultra), with and without a hardware lf file: -1, nothing touched
+    for cfg in ("np3Aw1", "np1w1h", "npUw1", "npUw1h"):
+        add(cfg, [], [mkrun(t=-1, post=1, dele=1, comp=1, ow=0), mkrun(t=-1, post=0, dele=0, comp=1, ow=1)]
+            + (T if th else []), "none", 1)
     # split with deletion -> (the user removes the leftover .meta) -> NP2Reconstructor -> convert the
     # recovered file again, plain / forced / interrupted; a shank file of the split is still refused
     DROP, REC = mkrun(t=100), (lambda c: mkrun(t=101, comp=c))
@@ -1502,6 +1589,12 @@ def run(ctx):
                              "first %d samples" % (NWINDOW, NS_OF_W[CONFIGS[cfg][3]], val[3].get("status"), NWINDOW),
                              {"cfg": cfg, "nsamples": NWINDOW, "runs": [mkrun(post=1, dele=1, comp=0)]},
                              {"clause": "nsamples_partial_delete", "kind": 0})
+                if len(val) > 4 and val[4] and val[4].get("status") != 1:
+                    ctx.fail("an NP2.1 recording named rec.imec0.bin (no 'ap' in the name): a plain first run returns %s "
+                             "and writes no lf file: the lf path is the path of the file given (files: %s)"
+                             % (val[4].get("status"), val[4].get("files")),
+                             {"cfg": cfg, "name": "rec.imec0.bin", "runs": [mkrun(post=0, dele=0, comp=0)]},
+                             {"clause": "name_alias", "kind": 1})
                 if val[2]:
                     ctx.fail("split -> NP2Reconstructor -> conversion of the recovered original: %s" % val[2],
                              {"cfg": cfg, "runs": [mkrun(post=1, dele=1, comp=0), mkrun(t=100), mkrun(t=101, comp=0),
@@ -1530,6 +1623,7 @@ def run(ctx):
         init_states = {}
         for cfg in ok_cfgs:
             exp = {int(k): v for k, v in json.loads((base / cfg / "exp.json").read_text()).items() if k != "recon_error"}
+            set_layout(cfg)
             init_states[cfg] = observe((base / cfg / "init").resolve(), CONFIGS[cfg][2], exp)["state"]
     finally:
         shutil.rmtree(base, ignore_errors=True)
@@ -1589,9 +1683,15 @@ def run(ctx):
         [enc_objseq(cfg, opts, calls) for cfg, opts, calls, obs in objs]
     outputs = [[x for o in obs for x in enc_obs(o)] for cfg, runs, obs in hists] + \
         [[x for o in obs for x in enc_obs(o)] for cfg, opts, calls, obs in objs]
+    names = name_cases(ctx)
+    nn0 = len(inputs)
+    inputs += [[30] + [ord(ch) for ch in nm] for nm in names]
+    outputs += [[ord(ch) for ch in nm.replace("ap", "lf")] + [int("ap" in nm)] for nm in names]
+    dist["file_names"] = len(names)
     nh = len(hists)
     common.correspondence(ctx, PROP, HEADER, inputs, outputs,
                           lambda i: ({"cfg": hists[i][0], "runs": hists[i][1]} if i < nh else
+                                     {"file_name": names[i - nn0]} if i >= nn0 else
                                      {"cfg": objs[i - nh][0], "object": 1, "opts": objs[i - nh][1],
                                       "calls": objs[i - nh][2]}), n_kernel=40)
     samples = [{"cfg": c, "runs": r, "outcomes": [o["outcome"] for o in ob], "final_state": ob[-1]["state"]}
@@ -1622,7 +1722,7 @@ def replay(ctx, data):
     if inp.get("object"):
         return replay_object(ctx, inp)
     cfg, runs = inp["cfg"], inp["runs"]
-    LAYOUT["extra"] = runs[0].get("extra", "") if runs else ""
+    set_layout(cfg, runs[0].get("extra", "") if runs else "")
     base = Path(common.tmpdir(prefix="C04_replay_"))
     try:
         exp = build_reference(base, cfg)
@@ -1651,7 +1751,7 @@ def replay(ctx, data):
 
 def replay_object(ctx, inp):
     cfg, opts, calls = inp["cfg"], inp["opts"], inp["calls"]
-    LAYOUT["extra"] = calls[0].get("extra", "") if calls else ""
+    set_layout(cfg, calls[0].get("extra", "") if calls else "")
     base = Path(common.tmpdir(prefix="C04_replay_"))
     try:
         exp = build_reference(base, cfg)
